@@ -8,7 +8,7 @@
    ``except Exception`` cannot swallow it) is raised when
 
        stalls in a row   >  STALL_LIMIT                      (constant), or
-       total calls       >  TOTAL_C * (n + 1) ** 2           (n = len(source) in characters,
+       total calls       >  TOTAL_C * (n + 1) ** 2 + 1000    (n = len(source) in characters,
                                                               an upper bound of the number of
                                                               tokens in any stream cut from it)
 
@@ -65,7 +65,8 @@ class CaseHang(BaseException):
 # 1. token stream step budget
 # ---------------------------------------------------------------------------
 STALL_LIMIT = 2000  # consecutive wrapped calls without any stream advancing
-TOTAL_C = 8  # total calls <= TOTAL_C * (chars + 1) ** 2
+TOTAL_C = 8  # total calls <= TOTAL_C * (chars + 1) ** 2 + TOTAL_FLOOR
+TOTAL_FLOOR = 1000
 ADVANCERS = ("next", "next_token", "__next__")
 ACCESSORS = ("current", "peek")
 
@@ -206,7 +207,7 @@ def begin_parse(nchars: int) -> None:
     st.stall = 0
     st.max_stall = 0
     st.tripped = None
-    st.budget = TOTAL_C * (nchars + 1) ** 2
+    st.budget = TOTAL_C * (nchars + 1) ** 2 + TOTAL_FLOOR
     st.active = True
 
 
